@@ -369,7 +369,7 @@ def _r2(ctx):
     else:
         ctx.violated(f, ret, "histogram scale/shift does not pass the cycle values through unchanged")
     fparam = f.params[1] if f.params[0] == "self" else f.params[0]
-    inner = [n for n in ast.walk(f.node) if isinstance(n, ast.FunctionDef) and
+    inner = [n for n in ast.walk(f.node) if isinstance(n, ast.FunctionDef) and n is not f.node and
              any(isinstance(c.func, ast.Name) and c.func.id == fparam for c in calls_in(n))]
     if len(inner) != 1:
         raise AnalysisError("_shift_or_scale: level transformation helper not found")
